@@ -28,6 +28,9 @@ pub fn pool_dates(w: &World, seed: u64) -> Vec<i32> {
         (2023, 4, 30), (2024, 1, 31), (2024, 2, 15), (2024, 2, 16), (2024, 2, 29), (2024, 5, 15), (2024, 5, 16), (2024, 8, 31), (2024, 11, 15), (2024, 11, 16),
         (2024, 12, 29), (2024, 12, 30), (2024, 12, 31), (2025, 1, 1), (9900, 12, 31), (9901, 1, 1), (9950, 1, 1), (9950, 12, 31), (9951, 1, 1), (9998, 12, 31),
         (9999, 1, 1), (9999, 6, 30), (9999, 7, 1), (9999, 11, 15), (9999, 11, 16), (9999, 12, 15), (9999, 12, 16),
+        // leap days and their neighbours in years with special divisibility (4, 100, 200, 400, 1000, 4000)
+        (4, 2, 29), (100, 2, 28), (100, 3, 1), (200, 2, 28), (200, 3, 1), (400, 2, 29), (1000, 2, 28), (1000, 3, 1), (1600, 2, 29), (1800, 2, 28), (1800, 3, 1), (2096, 2, 29), (2100, 2, 28),
+        (2100, 3, 1), (2400, 2, 29), (4000, 2, 29), (4000, 3, 1), (8000, 2, 29), (9996, 2, 29), (9800, 2, 28), (9800, 3, 1),
     ] {
         v.push(cal.day_number(y, m, d));
     }
@@ -55,6 +58,9 @@ pub fn pool_ts(w: &World, seed: u64) -> Vec<i64> {
     let tmin = cal.min_day as i64 * US_DAY;
     let tmax = (cal.max_day as i64 + 1) * US_DAY - 1;
     let mut v = vec![tmin, tmin + 1, tmin + US_SEC, tmin + US_DAY - 1, tmin + US_DAY, tmax, tmax - 1, tmax - 999_999, tmax - US_SEC, tmax - US_DAY, tmax - US_DAY + 1, -US_DAY, -US_SEC - 1, -US_SEC, -1, 0, 1, US_SEC, US_DAY];
+    for (y, m, d) in [(4, 2, 29), (400, 2, 29), (1800, 2, 28), (1800, 3, 1), (2096, 2, 29), (2100, 3, 1), (4000, 2, 29), (8000, 2, 29), (9996, 2, 29)] {
+        v.push(cal.day_number(y, m, d) as i64 * US_DAY + 13 * US_HOUR + 14 * US_MIN + 15 * US_SEC + 123_456);
+    }
     for d in [pool_dates(w, seed)[10], cal.day_number(2000, 2, 29), cal.day_number(1999, 12, 31), cal.day_number(9999, 12, 31), cal.day_number(1, 1, 1), cal.day_number(1969, 12, 31), cal.day_number(2024, 12, 31), cal.day_number(9950, 6, 15)] {
         for t in [0, 12 * US_HOUR - 1, 12 * US_HOUR, 23 * US_HOUR + 59 * US_MIN + 59 * US_SEC + 500_000] {
             v.push(d as i64 * US_DAY + t);
